@@ -146,14 +146,31 @@ func c14InProcess(idx *updog.Index, req *updogv1.QueryRequest) (viol string) {
 		q := convert.ToQuery(pbq)
 		res, err := idx.Execute(q)
 		if err != nil {
-			return ""
+			break
 		}
 		convert.ToProtobufResult(res, 1)
+	}
+	// a well-formed request afterwards is answered correctly (what the handler would do for the probe)
+	pq := c14NextProbe().Queries[0]
+	res, err := idx.Execute(convert.ToQuery(pq))
+	if err != nil {
+		return fmt.Sprintf("after the request a well-formed probe fails: %v", err)
+	}
+	if m := c14ProbeOK(&updogv1.QueryResponse{Results: []*updogv1.Result{convert.ToProtobufResult(res, 7)}}, nil); m != "" {
+		return "after the request (in-process) the " + m
 	}
 	return ""
 }
 
-var c14Probe = &updogv1.QueryRequest{Queries: []*updogv1.Query{{Id: 7, Expr: pEq("a", "x", 0), GroupBy: []string{"b"}}}}
+// the probe uses every operator (state left behind by an earlier, rejected request must not leak into it) and is a
+// different expression every time (a value that occurs nowhere, numbered), so that no result cache can answer it
+var c14ProbeSeq int
+
+func c14NextProbe() *updogv1.QueryRequest {
+	c14ProbeSeq++
+	absent := fmt.Sprintf("nope%d", c14ProbeSeq)
+	return &updogv1.QueryRequest{Queries: []*updogv1.Query{{Id: 7, Expr: pOr(pAnd(pEq("a", "x", 0), pNot(pEq("b", absent, 0))), pAnd(pEq("a", absent, 0), pEq("a", "y", 0))), GroupBy: []string{"b"}}}}
+}
 
 func c14ProbeOK(resp *updogv1.QueryResponse, err error) string {
 	if err != nil {
@@ -270,7 +287,7 @@ func c14Worker(ctx *rt.Ctx, job *rt.Job) []*rt.Violation {
 		}
 		if !died {
 			// liveness + correctness of a subsequent well-formed request
-			resp, perr := srv.query(c14Probe)
+			resp, perr := srv.query(c14NextProbe())
 			if m := c14ProbeOK(resp, perr); m != "" {
 				if !srv.alive() || srv.waitDead() {
 					died = true
@@ -379,7 +396,7 @@ func c14Replay(ctx *rt.Ctx, v *rt.Violation) *rt.Violation {
 	if qerr != nil && status.Code(qerr) == codes.Unavailable && srv.waitDead() {
 		return rt.NewViolation("C14", "request", c.sig(), c, "the server process died")
 	}
-	resp, perr := srv.query(c14Probe)
+	resp, perr := srv.query(c14NextProbe())
 	if m := c14ProbeOK(resp, perr); m != "" {
 		return rt.NewViolation("C14", "request", c.sig(), c, "after the request: %s", m)
 	}
